@@ -1,6 +1,7 @@
 """C27 — DBOS recovery replays a run to the same execution (PARTIAL: DBOS library absent; timeouts refuted)."""
 import json
 import random
+import time
 
 import core
 from suites import journal as J
@@ -21,7 +22,10 @@ def run(ctx, only=None):
                 "database at EVERY quiescent point of the first one with its own completion order (memoised-at-once "
                 "or free), and second crashes; distinct key = (journal length at the crash, results handed over, fresh "
                 "suffix length, timer fired, fallback taken, simultaneous completions, duplicate keys, stale rows, style)")
+    t0 = time.time()
+    timing = {}
     ctx.prove()
+    timing['prove'] = round(time.time() - t0, 1)
     rng = random.Random(ctx.seed)
     dbs = J.Dbs(ctx.scratch)
 
@@ -35,7 +39,9 @@ def run(ctx, only=None):
         for a, b in k.items():
             kinds[a] = kinds.get(a, 0) + b
         ctx.count(1, ("jops", tuple(x.split()[0] for x in rec["ops"])))
-    res = ctx.run_cases("jops", J.HEADER, exprs)
+    timing['jops_py'] = round(time.time() - t0, 1)
+    res = ctx.run_cases("jops", J.HEADER, exprs, shard=max(8, len(exprs) // 16 + 1))
+    timing['jops_coq'] = round(time.time() - t0, 1)
     bad_jops = [i for i, z in enumerate(res) if z != 0]
     ctx.suite("journal.jops", cases=len(exprs), disagreements=len(bad_jops), op_kinds=kinds)
     for k in ("record", "load", "purge", "rawtrunc", "new"):
@@ -65,16 +71,13 @@ def run(ctx, only=None):
             rows, ops, rec = b["runs"][min(1, len(b["runs"]) - 1)]
             ctx.sample(dict(start_journal=[J.KEYS[k] for k in J.journal_keys(rows)[0]], schedule=rec["events"][:14],
                             results=[J.KEYS[k] if k >= 0 else "timeout" for k in rec["snaps"][-1][2]]))
+    timing['loop_py'] = round(time.time() - t0, 1)
     lexprs = [b["expr"] for b in bases]
     lres = ctx.run_cases("loop", J.HEADER, lexprs, shard=max(4, min(60, len(lexprs) // 16 + 1)))
+    timing['loop_coq'] = round(time.time() - t0, 1)
     bad_loop = [i for i, z in enumerate(lres) if z != 0]
     ctx.suite("journal.loop", workflows=len(bases), disagreements=len(bad_loop), **tot)
     ctx.programs = len(bases) + len(exprs)
-    if only is None:
-        for k, m in (("crash_points", 50), ("in_domain", 50), ("transitions", 20), ("mid_replay_crash", 3),
-                     ("memo_runs", 20), ("tmo_fired", 5), ("multi_done", 10), ("second_crash", 10), ("stale", 2),
-                     ("purge_effective", 5), ("fallbacks", 1), ("nonfirst_pick", 5), ("dup_runs", 1)):
-            ctx.require_coverage("journal.loop", k, tot.get(k, 0), m)
     ctx.disagreements = len(bad_jops) + len(bad_loop)
 
     # ---------------- the property on the real outputs
@@ -96,9 +99,14 @@ def run(ctx, only=None):
     # ---------------- the refutation witness (Proofs/JournalProofs.v timeout_divergence) on the real code
     ok_first, diverges, as_model, detail = J.witness_timeout(dbs)
     ctx.suite("journal.witness", first_run_as_expected=ok_first, diverges=diverges, matches_model=as_model)
-    if not ok_first:
-        raise core.CheckError("witness scenario did not run as scripted: %s" % (detail,))
-    if diverges:
+    if detail["anomalies"]:
+        ctx.violation("C27 fails on the implementation: wait_for_next_task broke its contract in the witness scenario: %s"
+                      % detail["anomalies"][:2], dict(kind="refutation-witness", detail=detail))
+    elif not ok_first:
+        if not ctx.violations:
+            raise core.CheckError("witness scenario did not run as scripted: %s" % (detail,))
+        ctx.notes.append("witness scenario did not run as scripted (implementation already reported as failing)")
+    elif diverges:
         ctx.finding(FINDING, "recorded %s; recovered loop observed %s, journal afterwards %s" % (
             detail["recorded_journal"], detail["recovered_results"], detail["journal_after_recovery"]),
             dict(kind="refutation-witness", theorem="C27_timeout_divergence_refuted", detail=detail))
@@ -137,6 +145,15 @@ def run(ctx, only=None):
         ctx.notes.append("%d model/implementation disagreements accompany the monitor failures"
                          % (len(bad_jops) + len(bad_loop)))
 
+    # generators fail closed — but only when the implementation behaved (a broken implementation legitimately
+    # changes what the loop explores; that is reported above as a violation, not as a machinery error)
+    if only is None and not ctx.violations:
+        for k, m in (("crash_points", 50), ("in_domain", 50), ("transitions", 20), ("mid_replay_crash", 3),
+                     ("memo_runs", 20), ("tmo_fired", 5), ("multi_done", 10), ("second_crash", 10), ("stale", 2),
+                     ("purge_effective", 5), ("fallbacks", 1), ("nonfirst_pick", 5), ("dup_runs", 1)):
+            ctx.require_coverage("journal.loop", k, tot.get(k, 0), m)
+    timing['end'] = round(time.time() - t0, 1)
+    ctx.suite("journal.timing_cumulative_s", **timing)
     ctx.partial.append("PARTIAL: DBOS is absent from the sandbox; `a recovered DBOS step returns its recorded output and "
                        "_durable_time its recorded value` is the hypothesis dbos_memo of C27_same_ticks_same_reduction, "
                        "and the recovered runs of the tie simulate it (recorded tasks complete at once)")
